@@ -59,7 +59,7 @@ def cases(tier, seed):
                         for sort in (True, False):
                             yield {"keys": list(keys), "kkind": kkind, "vkind": vkind, "nullpat": list(pat), "mask": mask, "sort": sort}
     streams = [gen("float", "float", 5 if big else 4)]
-    for kkind, vkind in [("str", "float"), ("int", "float"), ("float", "int"), ("cat", "float"), ("two", "float"), ("float", "datetime"), ("str", "bool"), ("float", "timedelta"), ("two", "int")]:
+    for kkind, vkind in [("str", "float"), ("int", "float"), ("float", "int"), ("cat", "float"), ("two", "float"), ("float", "datetime"), ("str", "bool"), ("float", "timedelta"), ("two", "int"), ("float", "intarrow")]:
         streams.append(gen(kkind, vkind, 4 if big else 3))
     return C.roundrobin(*streams)
 
@@ -69,6 +69,7 @@ def extra_cases(tier, seed):
     threads is a function of the row count (1 + rows // 1e6, at most 4); the harness reaches it at small sizes by overriding the read-only property GroupBy._max_threads_for_numba
     from outside for the duration of one call (no source change) - the merged result must still be the per-group definition, in particular for groups that have no row, or only
     null values, in the first block(s)."""
+    yield from _allnull_cases()
     seqs = [[0, 0, 0, 1, 1, 2], [2, 2, 1, 1, 0, 0, 0], [0, 0, 0, 0, 1, 2, 1, 2], [None, 0, 0, 1, None, 1, 2, 2, 2], [1, 1, 1, 1, 1, 1, 0]]
     for keys in seqs:
         n = len(keys)
@@ -79,6 +80,15 @@ def extra_cases(tier, seed):
                     for threads in (2, 3, 4):
                         for kkind in (("float", "two") if threads == 2 else ("float",)):
                             yield {"keys": keys, "kkind": kkind, "vkind": vkind, "nullpat": pat, "mask": mask, "sort": True, "threads": threads}
+
+
+def _allnull_cases():
+    """a group whose values are ALL null (every nullable value class, incl. integers in a nullable (Arrow-backed) container) next to ordinary groups: it keeps its label and reports the neutral result"""
+    for keys, pat in (([0, 1, 0, 1, 2], [True, False, True, False, False]), ([1, 0, 1, 2, 2], [False, True, False, True, True])):
+        for vkind in ("float", "intarrow", "datetime", "timedelta"):
+            for kkind in ("float", "str"):
+                for mask in (None, ("bool", [True, True, True, True, False])):
+                    yield {"keys": keys, "kkind": kkind, "vkind": vkind, "nullpat": pat, "mask": mask, "sort": True}
 
 
 def random_case(rnd, tier):
@@ -96,7 +106,12 @@ def nontrivial(case):
 def check_case(sess, case, ops=None):
     from groupby_lib.groupby import GroupBy
     kkind, vkind = case["kkind"], case["vkind"]; n = len(case["keys"])
-    k, labs = make_keys(kkind, case["keys"]); v, vals = C.make_values(vkind, n, case["nullpat"])
+    k, labs = make_keys(kkind, case["keys"])
+    if vkind == "intarrow":          # signed integers with nulls: a pandas Series backed by an Arrow int64 array (a NumPy integer array cannot hold a null)
+        import pyarrow as pa
+        vals = [None if case["nullpat"][i] else int(((i * 5) % 7) - 3 + 10 * (i % 2)) for i in range(n)]
+        v = pd.Series(pd.array(vals, dtype=pd.ArrowDtype(pa.int64())))
+    else: v, vals = C.make_values(vkind, n, case["nullpat"])
     rows = C.selection_rows(case["mask"], n); m = C.np_mask(case["mask"]); calls = 0
     for op in ([case["op"]] if "op" in case else (ops or OPS)):
         if vkind == "datetime" and op == "sum": continue
